@@ -166,6 +166,13 @@ class Harness:
                     out.setdefault("cover_models", {})[name[7:]] = m
                 if r != "sat":
                     out["inconclusive"].append("cover witness not reachable: " + name[7:])
+        # one counterexample per obligation text (the earliest step that fails)
+        firsts = {}
+        for name, (r, m) in sorted(res.items()):
+            if name.startswith("prop: ") and r == "sat":
+                msg = name[6:].split("  @")[0]
+                firsts.setdefault(msg, m)
+        out["violations"] = list(firsts.items())
         if out["violations"]:
             out["status"] = "violated"
         elif out["inconclusive"]:
